@@ -13,12 +13,12 @@
       source order; the first rule that matches (operator text *and* right operand) updates the
       accumulated result and restarts the loop; if no rule matches the loop ends.
 
-    The table (levels, kinds, tokens, look-ahead guards, constructors) is data: gen/ArithTable.v,
+    The table (levels, kinds, tokens, look-ahead guards, constructors) is data: gen/C07ArithTable.v,
     regenerated from the Rust source on every run.  The non-precedence rules of the grammar
     ([lvalue], [variable_name], [_], [literal_number], [full_expression]) are modelled by hand
     here and in Lit.v over the regenerated character classes; their shape is checked by the
     translator. *)
-From BV Require Import Base.Prelude Base.Wrap64 Arith.Ast Arith.Lit.
+From BV Require Import Base.Prelude Arith.Wrap64 Arith.Ast Arith.Lit.
 
 Inductive elem :=
   | EWs                         (* _ *)
